@@ -41,6 +41,29 @@ def fillBitset (m : Nat) (l : List Nat) : List Nat × List Nat :=
 def count (l : List Nat) : Nat := l.length
 end Spec
 
+/-- hypotheses of the `…_partial` theorems that the real code violates (KNOWN_FINDINGS.txt), as
+switches of the implementation-level model: with a switch on, the model behaves as the code would
+with that defect repaired. All off = the code as it is. Used by the harness to attribute a
+deviation to a known finding: the model as-is must reproduce the real observations, and the model
+with exactly that hypothesis enforced must reproduce the specification's. -/
+structure Fix where
+  /-- finding 5: `BufferedUnionScorer::seek_danger` treats `target < window_start` as buffered -/
+  dangerWindow : Bool := false
+  /-- finding 1 (S4): `fill_buffer` clears the combiners of the slots it drains -/
+  fillClear : Bool := false
+  /-- finding 2: `fill_buffer` refreshes `self.score` for the document it leaves the cursor on -/
+  fillScore : Bool := false
+  /-- finding 3: the union's `count_including_deleted` leaves `doc() = TERMINATED` -/
+  unionCountEnd : Bool := false
+  /-- finding 8: the dense intersection count leaves `doc() = TERMINATED` -/
+  interCountEnd : Bool := false
+  /-- finding 4: `BitSetDocSet::seek` past `max_value` also exhausts the cursor -/
+  bitsetSticky : Bool := false
+  /-- finding 9: the out-of-horizon branch of `BufferedUnionScorer::seek` re-validates every child
+  (`child.seek(max(child.doc(), target))`) instead of reading `doc()` of children that its own
+  `seek_danger` may have left in their danger zone -/
+  childRevalidate : Bool := false
+
 /-- the operations of an implementation-level model (all total; `&mut self` = returned state) -/
 structure DS (σ : Type) where
   doc : σ → Nat
